@@ -70,6 +70,7 @@ fn main() {
             "c20_recount" => c20::c20_recount(r),
             "c20_ops" => c20::c20_ops(r),
             "batch" => batch::batch(r),
+            "c05_weight_sum" => batch::c05_weight_sum(r),
             "c14" => c14::c14(r),
             "c14_votes" => c14::c14_votes(r),
             other => json!({"error": format!("unknown kind {other}")}),
